@@ -144,6 +144,10 @@ def replay(obj):
         inp = build_input(summary, int(os.environ.get("VERIF_SEED", "20260929")), "quick")
         res = run_impl(dict(histories=inp["histories"][:200], pairs=[]))
         return not res.get("cdb_fresh"), ("still: %s" % res["cdb_fresh"] if res.get("cdb_fresh") else "results are fresh objects")
+    if obj.get("kind") == "c09-repeat":
+        rp = vlib.run_impl("corr/params_impl.py", dict(seed=obj["seed"], n_each=obj["n_each"]), timeout=900)
+        w = rp[obj["index"]].get("why")
+        return w is None, ("still: %s" % w[:300] if w else "equal bytes every time, arguments unchanged")
     if obj.get("kind") == "c09-mutation":
         res = run_impl(dict(histories=[], pairs=[]))
         hits = [h for h in findings(dict(histories=[], pairs=[]), res) if h["id"] == obj["id"]]
@@ -169,6 +173,22 @@ def run(rep, tier, seed, summary):
               0, samples=[dict(history=[x["cls"] for x in inp["histories"][0]]), dict(thread_lines=[r["lines"] for r in res["threads"]])],
               distribution=dict(histories=len(inp["histories"]), schedules=nsched, footprint=summary["footprint"]))
     hits = findings(inp, res)
+    # "repeating a marshalling call with equal inputs yields equal bytes": every valid parameter dictionary of tools/spec_params.py (all
+    # byte values as bytearrays, the way the library's own decoders return them) handed to the real constructor three times
+    n_each = 12 if tier == "quick" else 80
+    rp = vlib.run_impl("corr/params_impl.py", dict(seed=seed, n_each=n_each), timeout=900)
+    seen_rp = set()
+    for r in rp:
+        w = r.get("why") or ""
+        if w.startswith("construction no.") or w.startswith("the caller's arguments were changed"):
+            sig = "%s: %s" % (r["kind"], w.split(":")[0])
+            if sig not in seen_rp:
+                seen_rp.add(sig)
+                hits.append(dict(kind="c09-repeat", id="repeat: " + sig, seed=seed, n_each=n_each, index=r["i"], command=r["kind"],
+                                 observed="%s built repeatedly from the same argument objects: %s" % (r["kind"], w[:400])))
+    rep.suite("repeatability on the implementation: parameter dictionaries (MODE SELECT, PERSISTENT RESERVE OUT, EXTENDED COPY with all designator "
+              "kinds; byte values as bytearrays) handed to the real constructors three times; equal bytes, arguments unchanged", len(rp), 0,
+              distribution=dict(per_command={k: sum(1 for r in rp if r["kind"] == k) for k in sorted({r["kind"] for r in rp})}))
     known = {k["id"]: k for k in vlib.load_known() if k.get("property") == PID and k.get("status") == "known"}
     new = [h for h in hits if h["id"] not in known]
     for h in hits:
